@@ -36,7 +36,7 @@ def cq_search(repo, prop, tier, seed=1):
     fcntl.flock(lockf, fcntl.LOCK_EX)
     try:
         exe, err = _build(repo)
-        depth, nrandom = (6, 20000) if tier == "thorough" else (5, 2000)
+        depth, nrandom = (6, 30000) if tier == "thorough" else (5, 5000)
         res = {"what": "bounded replay of the abstract event-set contract (a_add/a_fetch/a_cancel/a_peek made executable) on the real des-cqueue: every script of add/fetch/cancel/peek up to length %d over 7 (bucket count, width) parameterisations and a timestamp grid (ties, bucket and year boundaries), plus %d seeded random long scripts (incl. far-future timestamps around 2^64 ns)" % (depth, nrandom),
                "bound": "script length <= %d exhaustive; %d random scripts of length <= 200; seed %d" % (depth, nrandom, seed), "labelled": "bounded", "counts_as_proof": False}
         if exe is None:
